@@ -11,7 +11,7 @@ static const time_t T0 = 1700000000;
 
 /* ================================================================== C15: ref_map */
 typedef struct {
-	int kind;          /* 0 set, 1 get, 2 del */
+	int kind;          /* 0 set, 1 get, 2 del, 3 copy: get `name`, then set `sval` (another name) to the value just read, same jwt_value_t */
 	jwt_value_type_t type;
 	const char *name;  /* may be NULL or "" */
 	long ival;
@@ -67,6 +67,16 @@ static void build_mops(void)
 		*m = (mop_t){ 2, JWT_VALUE_NONE, NAMES[n], 0, NULL, 0, 0, "" };
 		snprintf(m->label, sizeof m->label, "del(%s)", nm(NAMES[n]));
 	}
+	/* read a member and store what was read under the other name, through one jwt_value_t and the initialiser macros
+	 * (the macro's value argument is a field of the structure it initialises) */
+	static const jwt_value_type_t ct[] = { JWT_VALUE_INT, JWT_VALUE_STR, JWT_VALUE_BOOL };
+	static const char *cn[] = { "int", "str", "bool" };
+	for (int t = 0; t < 3; t++)
+		for (int d = 0; d < 2; d++) {
+			mop_t *m = &MOPS[NMOPS++];
+			*m = (mop_t){ 3, ct[t], d ? "b" : "a", 0, d ? "a" : "b", 0, 1, "" };
+			snprintf(m->label, sizeof m->label, "copy_%s(%s->%s,replace)", cn[t], m->name, m->sval);
+		}
 }
 
 /* result of one operation as seen through the API */
@@ -90,6 +100,18 @@ static void model_apply(json_t *st, const mop_t *op, mres_t *r)
 		else
 			json_object_clear(st);
 		r->rc = JWT_VALUE_ERR_NONE;
+		return;
+	}
+	if (op->kind == 3) {
+		json_t *v = json_object_get(st, op->name);
+		int ok = v && (op->type == JWT_VALUE_INT ? json_is_integer(v) : op->type == JWT_VALUE_STR ? json_is_string(v) : json_is_boolean(v));
+		if (!v)
+			r->rc = JWT_VALUE_ERR_NOEXIST;
+		else if (!ok)
+			r->rc = JWT_VALUE_ERR_TYPE;
+		else
+			json_object_set_new(st, op->sval, json_deep_copy(v));
+		r->verr = r->rc;
 		return;
 	}
 	if (op->kind == 1) {
@@ -197,6 +219,33 @@ static void impl_apply(mrun_t *run, jwt_t *jwt, const mop_t *op, mres_t *r)
 			r->rc = hdr ? jwt_header_del(jwt, op->name) : jwt_claim_del(jwt, op->name);
 		else
 			r->rc = hdr ? jwt_builder_header_del(run->b, op->name) : jwt_builder_claim_del(run->b, op->name);
+		return;
+	}
+	if (op->kind == 3) {
+		switch (op->type) {
+		case JWT_VALUE_INT: jwt_set_GET_INT(&v, op->name); break;
+		case JWT_VALUE_STR: jwt_set_GET_STR(&v, op->name); break;
+		default: jwt_set_GET_BOOL(&v, op->name); break;
+		}
+		POISON(v);
+		if (jwt)
+			r->rc = hdr ? jwt_header_get(jwt, &v) : jwt_claim_get(jwt, &v);
+		else
+			r->rc = hdr ? jwt_builder_header_get(run->b, &v) : jwt_builder_claim_get(run->b, &v);
+		r->verr = v.error;
+		if (r->rc != JWT_VALUE_ERR_NONE)
+			return;
+		switch (op->type) {
+		case JWT_VALUE_INT: jwt_set_SET_INT(&v, op->sval, v.int_val); break;
+		case JWT_VALUE_STR: jwt_set_SET_STR(&v, op->sval, v.str_val); break;
+		default: jwt_set_SET_BOOL(&v, op->sval, v.bool_val); break;
+		}
+		v.replace = 1;
+		if (jwt)
+			r->rc = hdr ? jwt_header_set(jwt, &v) : jwt_claim_set(jwt, &v);
+		else
+			r->rc = hdr ? jwt_builder_header_set(run->b, &v) : jwt_builder_claim_set(run->b, &v);
+		r->verr = v.error;
 		return;
 	}
 	if (op->kind == 1) {
@@ -414,7 +463,7 @@ static void c15_for_receiver(int rcv, int maxdepth)
 						model_apply(m, &MOPS[ops[i]], &want);
 						c15_checked_calls++;
 						const mop_t *o = &MOPS[ops[i]];
-						const char *kname = o->kind == 0 ? "set" : o->kind == 1 ? "get" : "del";
+						const char *kname = o->kind == 0 ? "set" : o->kind == 1 ? "get" : o->kind == 3 ? "copy" : "del";
 						if (res[i].rc != want.rc) {
 							char key[96];
 							snprintf(key, sizeof key, "map|%s-returns-%d-model-%d", kname, res[i].rc, want.rc);
@@ -432,7 +481,7 @@ static void c15_for_receiver(int rcv, int maxdepth)
 					if (strcmp(md, run.final_dump)) {
 						char key[96];
 						const mop_t *o = &MOPS[op];
-						snprintf(key, sizeof key, "map|state-differs-after-%s", o->kind == 0 ? (o->type == JWT_VALUE_JSON ? "set_json" : "set") : o->kind == 1 ? "get" : "del");
+						snprintf(key, sizeof key, "map|state-differs-after-%s", o->kind == 0 ? (o->type == JWT_VALUE_JSON ? "set_json" : "set") : o->kind == 1 ? "get" : o->kind == 3 ? "copy" : "del");
 						vf_violation(key, "%s: after [%s] the map is %s, model %s", rcv_name[rcv], mhist_str(ops, hn + 1), run.final_dump, md);
 					}
 					vf_obs(vf_hash_mix(vf_hash_str(md), res[hn].rc));
